@@ -45,7 +45,7 @@ def run(tier):
     # backtrack, cut, memo replay and every node handed to a GrammarSemantics action must be what the grammar file prescribes
     from ..pegcheck import validate_records
     from ..suitetraces import record_boot_case, suite_part
-    short = [t for t in texts if len(t) <= 400]
+    short = [t for t in texts if len(t) <= (400 if tier == 'quick' else 1500)]
     step = 4 if tier == 'quick' else 1
     pick = short[ck.seed % step::step]
     bchunks = [{'texts': pick[i:i + 10], 'label': 'C15 corpus', 'offset': i} for i in range(0, len(pick), 10)]
